@@ -5,7 +5,7 @@
 //! grows without repeating an instruction (that input — property C18's known finding — overflows the stack
 //! of the process it runs in, so only C18's child-process harness may generate it):
 //!
-//! * group A = `RX`, `RY`, `U2` (ranks 0, 1, 2): a calibration for a group-A name may use ARITHMETIC on its
+//! * group A = `RX`, `RY`, `U2`, `U3` (ranks 0, 1, 2, 3): a calibration for a group-A name may use ARITHMETIC on its
 //!   parameter variables (`%t+1`, `2*%t`, …) but only invokes group-A gates of strictly higher rank, or
 //!   group-B gates;
 //! * group B = `X`, `Y`, `CZ`, `RZ`, `MEASURE`: calibrations for these may invoke any group-B gate (so
@@ -19,10 +19,12 @@ use quil_rs::Program;
 use std::str::FromStr;
 
 /// (name, number of parameters, number of qubits, group-A rank or None for group B)
-pub const GATES: [(&str, usize, usize, Option<u32>); 7] = [
+pub const GATES: [(&str, usize, usize, Option<u32>); 8] = [
     ("RX", 1, 1, Some(0)),
     ("RY", 1, 1, Some(1)),
     ("U2", 2, 1, Some(2)),
+    // three parameters: every order of literal and variable parameters occurs (`U3(0, %u, 1)`, `U3(%t, 2, %v)` …)
+    ("U3", 3, 1, Some(3)),
     ("X", 0, 1, None),
     ("Y", 0, 1, None),
     ("CZ", 0, 2, None),
@@ -31,7 +33,7 @@ pub const GATES: [(&str, usize, usize, Option<u32>); 7] = [
 
 pub const LITERALS: [&str; 8] = ["0", "1", "2", "0.5", "pi", "pi/2", "1.5707963267948966", "3"];
 pub const QVARS: [&str; 3] = ["q", "r", "s"];
-pub const PVARS: [&str; 2] = ["t", "u"];
+pub const PVARS: [&str; 3] = ["t", "u", "v"];
 
 /// Parse a Quil text with the real parser into the instruction list of the resulting program. A text that
 /// does not parse is a bug of the generator: say so loudly (the harness silences panics) and stop.
@@ -174,10 +176,13 @@ fn invoke(rng: &mut Rng, cx: &Ctx, h: &Header) -> String {
             }
         }
         None => {
+            // mostly the calibration's own name; sometimes another one (a named calibration delegating to the
+            // unnamed measurement and vice versa: equal up to the name only)
+            let name = if rng.chance(5, 6) { h.mname } else { *rng.pick(&MNAMES) };
             if h.formal.is_some() && rng.chance(9, 10) {
-                format!("MEASURE{} {} {}", h.mname, qubits[0], target(rng, cx))
+                format!("MEASURE{name} {} {}", qubits[0], target(rng, cx))
             } else {
-                format!("MEASURE{} {}", h.mname, qubits[0])
+                format!("MEASURE{name} {}", qubits[0])
             }
         }
     }
@@ -238,8 +243,11 @@ fn target(rng: &mut Rng, cx: &Ctx) -> String {
     }
 }
 
+/// measurement names: mostly unnamed, sometimes `MEASURE!alt` / `MEASURE!fast`
+pub const MNAMES: [&str; 8] = ["", "", "", "", "", "!alt", "!alt", "!fast"];
+
 pub fn measure(rng: &mut Rng, cx: &Ctx) -> String {
-    let name = if rng.chance(1, 10) { "!alt" } else { "" };
+    let name = *rng.pick(&MNAMES);
     if rng.chance(3, 4) {
         format!("MEASURE{name} {} {}", qubit(rng, cx), target(rng, cx))
     } else {
@@ -254,8 +262,19 @@ pub fn body_instruction(rng: &mut Rng, cx: &Ctx) -> String {
             return t;
         }
     }
+    let k = rng.below(TEMPLATES);
+    body_template(rng, cx, k)
+}
+
+/// number of instruction templates of `body_template`
+pub const TEMPLATES: u64 = 40;
+
+/// The `k`-th instruction template instantiated in context `cx` (qubits, expressions and targets drawn from
+/// the context): every instruction kind the substitution touches, every kind `add_instruction` hoists that the
+/// parser accepts inside a calibration body, and classical / control instructions.
+pub fn body_template(rng: &mut Rng, cx: &Ctx, k: u64) -> String {
     let q = qubit(rng, cx);
-    match rng.below(40) {
+    match k {
         0..=11 => gate(rng, cx),
         12 | 13 | 14 => measure(rng, cx),
         15 => format!("PULSE {q} \"xy\" gaussian(duration: {}, fwhm: 2, t0: 3)", expr(rng, cx)),
@@ -274,13 +293,35 @@ pub fn body_instruction(rng: &mut Rng, cx: &Ctx) -> String {
         29 => format!("RAW-CAPTURE {q} \"ro_rx\" {} {}", expr(rng, cx), target(rng, cx)),
         30 => format!("RESET {q}"),
         31 => "RESET".to_string(),
-        32 => rng.pick(&["DECLARE a BIT[2]", "DECLARE b REAL[1]", "DECLARE ro BIT[2]", "DECLARE a INTEGER[1]"]).to_string(),
+        32 => rng
+            .pick(&[
+                "DECLARE a BIT[2]",
+                "DECLARE b REAL[1]",
+                "DECLARE ro BIT[2]",
+                "DECLARE a INTEGER[1]",
+                "DECLARE c BIT[2] SHARING ro OFFSET 1 BIT",
+            ])
+            .to_string(),
         33 => rng.pick(&["NOP", "WAIT", "HALT", "JUMP @end", "LABEL @end"]).to_string(),
         34 => match cx.formal {
-            Some(f) if rng.chance(1, 2) => format!("PRAGMA LOAD-MEMORY \"{f}\""),
+            Some(f) if rng.chance(1, 2) => match rng.below(4) {
+                // only the exact name LOAD-MEMORY with exactly the formal name as data is rewritten
+                0 => format!("PRAGMA load-memory \"{f}\""),
+                1 => format!("PRAGMA LOAD-MEMORY x 1 \"{f}\""),
+                2 => format!("PRAGMA LOAD-MEMORY \"{f}[0]\""),
+                _ => format!("PRAGMA LOAD-MEMORY \"{f}\""),
+            },
             _ => rng.pick(&["PRAGMA LOAD-MEMORY \"other\"", "PRAGMA FOO bar 1", "PRAGMA LOAD-MEMORY"]).to_string(),
         },
-        35 => "PRAGMA EXTERN f \"INTEGER (x : INTEGER)\"".to_string(),
+        35 => rng
+            .pick(&[
+                "PRAGMA EXTERN f \"INTEGER (x : INTEGER)\"",
+                "PRAGMA EXTERN g \"REAL (y : REAL)\"",
+                "PRAGMA EXTERN f \"REAL (x : REAL)\"",
+                "PRAGMA EXTERN f g \"INTEGER (x : INTEGER)\"",
+                "PRAGMA EXTERN",
+            ])
+            .to_string(),
         36 => format!("MOVE ro[{}] 1", rng.below(2)),
         37 => "ADD theta[0] 1.5".to_string(),
         38 => format!("DELAY {q} 1"),
@@ -317,7 +358,7 @@ pub fn random_header(rng: &mut Rng) -> Header {
         .map(|k| {
             if rng.chance(3, 5) {
                 // the same variable twice (U2(%t, %t)) is allowed: the later binding wins
-                let v = if rng.chance(1, 6) { PVARS[0] } else { PVARS[k % 2] };
+                let v = if rng.chance(1, 6) { PVARS[0] } else { PVARS[k % 3] };
                 format!("%{v}")
             } else {
                 rng.pick(&LITERALS).to_string()
@@ -339,9 +380,14 @@ pub fn random_header(rng: &mut Rng) -> Header {
 
 /// A random measurement-calibration identifier.
 pub fn random_measure_header(rng: &mut Rng) -> Header {
-    let mname = if rng.chance(1, 10) { "!alt" } else { "" };
+    let mname = *rng.pick(&MNAMES);
     let q = if rng.chance(3, 5) { "q".to_string() } else { format!("{}", rng.below(3)) };
-    let formal = if rng.chance(4, 5) { Some("addr") } else { None };
+    // the formal target is usually `addr`, sometimes the name of a region the program really declares
+    let formal = match rng.below(5) {
+        0 => None,
+        1 => Some("ro"),
+        _ => Some("addr"),
+    };
     Header { gate: None, mname, modifier: "", params: vec![], qubits: vec![q], formal }
 }
 
@@ -399,4 +445,39 @@ pub fn parse_pieces(pieces: &[String]) -> Vec<Instruction> {
 /// A random program as an instruction list (see `random_program_texts`).
 pub fn random_program(rng: &mut Rng, mode: Mode, ncal: u64, nbody: u64, elsewhere: bool) -> Vec<Instruction> {
     parse_pieces(&random_program_texts(rng, mode, ncal, nbody, elsewhere))
+}
+
+/// Kind sweep: ONE calibration whose body is the `k`-th instruction template (with qubit variables `q`, `r`,
+/// parameter variables `%t`, `%u` — or, for `measure`, qubit variable `q` and formal target `addr` — in scope),
+/// invoked once with distinct fixed qubits / parameters / target.  Run for every `k`, it guarantees that each
+/// instruction kind meets each substitution at least once per run, independently of the random streams.
+pub fn sweep_case(rng: &mut Rng, k: u64, measure: bool) -> Vec<String> {
+    let mut out: Vec<String> =
+        ["DECLARE ro BIT[4]", "DECLARE other REAL[2]", "DECLARE theta REAL[1]"].iter().map(|s| s.to_string()).collect();
+    let headers: Vec<Header> = vec![];
+    if measure {
+        let cx = Ctx { headers: &headers, qvars: vec!["q"], pvars: vec![], formal: Some("addr"), rank: None, top_level: false, mode: Mode::Safe };
+        let body = vec![body_template(rng, &cx, k), "NOP".to_string()];
+        out.push(defcal_text("DEFCAL MEASURE q addr:".to_string(), body));
+        out.push("MEASURE 2 other[1]".to_string());
+    } else {
+        // rank 100: no group-A gate may be invoked from the body, so nothing can grow
+        let cx = Ctx { headers: &headers, qvars: vec!["q", "r"], pvars: vec!["t", "u"], formal: None, rank: Some(100), top_level: false, mode: Mode::Safe };
+        let body = vec![body_template(rng, &cx, k), "NOP".to_string()];
+        out.push(defcal_text("DEFCAL SW(1, %t, %u) q 0 r:".to_string(), body));
+        out.push("SW(1, 0.5, theta[0]+1) 2 0 1".to_string());
+    }
+    out
+}
+
+/// Every template once at the top level of a program whose only calibrations match none of them: all are kept,
+/// in order (the definitions among them are hoisted).
+pub fn sweep_unmatched(rng: &mut Rng) -> Vec<String> {
+    let mut out: Vec<String> = vec!["DECLARE ro BIT[4]".to_string(), "DEFCAL SW 7:\n\tNOP".to_string(), "DEFCAL MEASURE 7:\n\tNOP".to_string()];
+    let headers: Vec<Header> = vec![];
+    let cx = Ctx { headers: &headers, qvars: vec![], pvars: vec![], formal: None, rank: None, top_level: true, mode: Mode::Safe };
+    for k in 0..TEMPLATES {
+        out.push(body_template(rng, &cx, k));
+    }
+    out
 }
